@@ -904,15 +904,25 @@ fn size_arms(file: &syn::File, ty: &str, what: &str) -> Vec<(String, i128, bool)
         let v = variant_of(&arm.pat).unwrap_or_else(|| fail(&format!("{what}: match arm pattern")));
         if let Some(n) = eval(&arm.body, &env) {
             out.push((v, n, false));
-        } else if let syn::Expr::MethodCall(mc) = unparen(&arm.body) {
-            if mc.method == "saturating_add" && mc.args.len() == 1 {
-                let n = eval(&mc.args[0], &env).unwrap_or_else(|| fail(&format!("{what}: overhead of {v} not constant")));
+        } else {
+            // a length-dependent size: exactly one `saturating_add(<const>)` / `checked_add(<const>)` somewhere in the arm (directly,
+            // or inside an `and_then` closure of a checked chain that ends in `unwrap_or(u8::MAX)`): the constant is the overhead
+            struct Adds<'e> { found: Vec<&'e syn::Expr> }
+            impl<'ast> syn::visit::Visit<'ast> for Adds<'ast> {
+                fn visit_expr_method_call(&mut self, mc: &'ast syn::ExprMethodCall) {
+                    if (mc.method == "saturating_add" || mc.method == "checked_add") && mc.args.len() == 1 { self.found.push(&mc.args[0]); }
+                    syn::visit::visit_expr_method_call(self, mc);
+                }
+            }
+            use syn::visit::Visit;
+            let mut a = Adds { found: vec![] };
+            a.visit_expr(&arm.body);
+            if a.found.len() == 1 {
+                let n = eval(a.found[0], &env).unwrap_or_else(|| fail(&format!("{what}: overhead of {v} not constant")));
                 out.push((v, n, true));
             } else {
-                fail(&format!("{what}: arm {v} is neither a constant nor `….saturating_add(<const>)`"))
+                fail(&format!("{what}: arm {v} is neither a constant nor a length plus one constant overhead (saturating_add / checked_add)"))
             }
-        } else {
-            fail(&format!("{what}: arm {v} is neither a constant nor `….saturating_add(<const>)`"))
         }
     }
     out
